@@ -94,6 +94,12 @@ CHECKS["C14"] = dict(engine="tlc+ringdrive",
    text="TLC proves on small abstract universes that routing is a function of the member set (any two Add/Remove/Refresh histories reaching the same set agree), that removal re-routes only the removed host's codes and addition only moves codes onto the new host; the driver computes the real virtual points independently (crypto/md5), drives the real selectors through twin histories and probes every ring point +-1, 0, 2^32-1 and random codes; TLC judges every answer and the differential statements on consecutive real answers; a universe with a brute-forced 32-bit point collision is included; calls made with a hash code in the context are routed over 5 scripted servers and compared with Lookup/ModSlot over Endpoints().",
    design_ref="5/C14", note="Trusted: MD5 as data; HashRing.tla; the weighted mod-hash verdict uses the cycle the real builder returns (its contents are C13's subject).")
 
+CHECKS["C15"] = dict(engine="tlc+fodrive",
+   technique="TLA+ spec Failover.tla (per-endpoint health record with clock-relative saturating ages, the manager's rotation and probe queue; actions Select / CallDone / CheckEp / CheckAll / Advance / Ping; every clause of C15 as an invariant or action property over ghost variables) model-checked by TLC; directed replay: behaviours produced by TLC (Gen_Failover biased walks with -simulate, Plan_Failover enumerated plans that land exactly on the 2 / 5 failures, 5 s / 30 s / 60 s thresholds) are performed step by step on the real ServantProxy / endpointManager / AdapterProxy objects and the projected health record, rotation, probe queue and the server that received each call are compared with the model after every step",
+   category="model_checking",
+   text="TLC checks NeverOutWithoutFailure, NeverOutBelowTwoFailures, AllFailingLeaves, ProbeSpacing, ProbeIsOneCall, ProbeDecides, OnlyProbeReturns and CallsGoSomewhere exhaustively for 1-3 endpoints with sequential, overlapping and concurrent calls, with and without client keep-alive. The driver builds a real ServantProxy over a scripted registry and scripted TCP servers (answering or silent per call), runs the status check through a build-tagged export, advances time by shifting the adapters' timestamps, and replays every TLC behaviour: after each step the real status / failCount / lastFailCount / sendCount / ages / rotation / probe queue must equal the model's projection and each call must reach the endpoint the model chose. Corrupted behaviours must diverge (binding self-test).",
+   design_ref="5/C15", note="Trusted: Failover.tla; time is advanced by shifting timestamps (all comparisons in the health logic are now - t >= threshold); the registry keeps answering with the same endpoints on distinct hosts.")
+
 CHECKS["C01"] = dict(engine="tlc+calldrive",
    technique="TLA+ spec CallPipeline.tla (client/server program counters per call, filter events per registration mode, transported values as parameters of the actions) model-checked by TLC; trace validation (Trace_CallPipeline) of real generated proxy <-> real generated dispatcher runs with recording implementation, filters and call sites; equality of what was passed/received/produced/returned is decided by the spec's invariants on canonical strings",
    category="model_checking",
